@@ -1,6 +1,7 @@
 (** C01 - point reads return the most recent write, whatever maintenance has happened.
     Only statements + [exact] + [Print Assumptions]; proofs live in Proofs/. *)
 From LsmV Require Import Model.Tree Model.Stream Model.Cert Proofs.Newest Proofs.Lookup Proofs.Cert Proofs.Stream.
+From LsmV Require Model.Leveled Proofs.Leveled.
 Open Scope N_scope.
 
 (** (1) Certificate soundness: on ANY superversion (in particular every one dumped from the
@@ -88,3 +89,68 @@ Print Assumptions C01_major_choice_ok.
 
 Example C01_machine_nonvacuous : mops_ok minit MachineExample.ops = true.
 Proof. vm_compute. reflexivity. Qed.
+
+(** (7) The default strategy. [leveled_choose] transliterates compaction/leveled/mod.rs
+    (choose + pick_minimal_compaction) with the floating-point level scores replaced by oracle
+    arguments (EVERY level may win). Whatever the scores, the hidden set, the file sizes and the
+    parameters: a Move chosen by Leveled satisfies the obligation [mop_ok] the machine theorems
+    assume; a Merge does whenever the levels involved have at most one run ([leveled_pre]) ... *)
+Module LV := LsmV.Model.Leveled.
+Module LVP := LsmV.Proofs.Leveled.
+Theorem C01_leveled_move_ok :
+  forall (st : mstate) (l : superversion) (lvl : nat) (need_new_l1 : bool) (size : table -> N)
+         (l0_threshold target_size : N) (hidden ids : list N) (dest : nat),
+    minv st -> latest (hist (hs st)) = Some l -> seq_avail st = true ->
+    LV.leveled_choose lvl need_new_l1 size l0_threshold target_size (ver l) hidden = LV.LMove ids dest ->
+    mop_ok st (MMove ids dest) = true.
+Proof. exact LVP.leveled_move_mop_ok. Qed.
+Print Assumptions C01_leveled_move_ok.
+
+Theorem C01_leveled_merge_ok :
+  forall (st : mstate) (l : superversion) (W : N) (cuts : list nat) (lvl : nat) (need_new_l1 : bool)
+         (size : table -> N) (l0_threshold target_size : N) (hidden ids : list N) (dest : nat),
+    minv st -> latest (hist (hs st)) = Some l -> seq_avail st = true ->
+    LVP.leveled_pre lvl need_new_l1 (ver l) ->
+    LV.leveled_choose lvl need_new_l1 size l0_threshold target_size (ver l) hidden = LV.LMerge ids dest ->
+    cuts_ok cuts (compact_out W dest (ver l) ids) = true ->
+    mop_ok st (MCompact ids dest W cuts) = true.
+Proof. exact LVP.leveled_merge_mop_ok. Qed.
+Print Assumptions C01_leveled_merge_ok.
+
+(** ... and a tree that is only ever compacted by Leveled (any scores, any interleaving with
+    writes, rotations, flushes and version GC) keeps that shape by itself, so every one of its
+    operations is legal and every key reads its last write: no outside assumption is left. *)
+Theorem C01_leveled_tree_ok : forall ops : list mop,
+  LVP.lev_ops_ok minit ops ->
+  mops_ok minit ops = true /\ LVP.st_single (mrun minit ops).
+Proof. exact LVP.leveled_tree_ok. Qed.
+Print Assumptions C01_leveled_tree_ok.
+
+Theorem C01_leveled_tree_reads : forall ops : list mop,
+  LVP.lev_ops_ok minit ops ->
+  (forall (k : key) (t : vtype) (v : list N), In (MWrite k t v) ops -> t <> WeakTomb) ->
+  forall k : key,
+    mget (fun (_ : N) (_ : key) => true) (mrun minit ops) k =
+    spec_get (wlog (mrun minit ops)) k SEQ_MAX.
+Proof. exact LVP.leveled_tree_reads. Qed.
+Print Assumptions C01_leveled_tree_reads.
+
+(** sharpness: with two overlapping runs in L1 (only MoveDown / PullDown, which the crate hides
+    from its documentation, can build that) Leveled's merge places its output beneath newer data:
+    [get a] returns the value written at seqno 3 instead of the one written at seqno 6 *)
+Theorem C01_leveled_multi_run_refuted :
+  let st := mrun minit LVP.LeveledExamples.ops_r2 in
+  let v := LVP.LeveledExamples.ver_of st in
+  mops_ok minit LVP.LeveledExamples.ops_r2 = true /\
+  LV.leveled_choose 1 false LVP.LeveledExamples.sz1 4 1000 v [] = LV.LMerge [2; 0] 2 /\
+  ~ LVP.leveled_pre 1 false v /\
+  mop_ok st (MCompact [2; 0] 2 0 []) = false /\
+  LVP.LeveledExamples.get st LVP.LeveledExamples.ka =
+    Some {| ukey := LVP.LeveledExamples.ka; seq := 6; ty := Value; val := [2] |} /\
+  LVP.LeveledExamples.get (mstep st (MCompact [2; 0] 2 0 [])) LVP.LeveledExamples.ka =
+    Some {| ukey := LVP.LeveledExamples.ka; seq := 3; ty := Value; val := [1] |}.
+Proof.
+  destruct LVP.LeveledExamples.leveled_merge_multi_run_refuted as (A & _ & _ & B & C & _ & D & E & _ & F).
+  repeat split; assumption.
+Qed.
+Print Assumptions C01_leveled_multi_run_refuted.
